@@ -436,6 +436,32 @@ DIRECTED = [
     ('isar: constant named discriminator_a used in a discriminator expression (D187)', '--isar',
      {'a.xml': ISAR % ('<constant name="discriminator_a" value="7"/><union name="U"><member name="a" type="u8" discriminatorValue="1"/>'
                        '<member name="b" type="u16" discriminatorValue="discriminator_a + 1"/></union>')}, 'a.xml', 'reject'),
+    ('struct named array (D195)', None, {'a.prophy': 'struct array { u8 a; };\nstruct X { array k; u8 f[3]; };\n'}, 'a.prophy', 'reject'),
+    ('field named optional next to an optional field (D195)', None, {'a.prophy': 'struct X { u32 optional; u8* o; };\n'}, 'a.prophy', 'reject'),
+    ('typedef named message (D195)', None, {'a.prophy': 'typedef u16 message;\nstruct X { message m; };\n'}, 'a.prophy', 'reject'),
+    ('enumerator named array (D195)', None, {'a.prophy': 'enum Kind { array = 1, other = 2 };\nstruct X { Kind k; u8 f[3]; };\n'}, 'a.prophy', 'reject'),
+    ('struct named swap (D195)', None, {'a.prophy': 'struct swap { u8 a; };\nstruct X { swap s; };\n'}, 'a.prophy', 'reject'),
+    ('struct named alignment (D195)', None, {'a.prophy': 'struct alignment { u8 a; };\nstruct X { alignment s; u64 b; };\n'}, 'a.prophy', 'reject'),
+    ('struct named bool_t (D195)', None, {'a.prophy': 'struct bool_t { u8 a; };\nstruct X { bool_t s; u8* o; };\n'}, 'a.prophy', 'reject'),
+    ('fields named like runtime names nothing captures in a member (D195)', None,
+     {'a.prophy': 'struct X { u8 swap; u16 align; u32 message; u8 detail; u8 cast; u8 nearest; };\n'}, 'a.prophy', 'usable'),
+    ('union arms time and time_t (D195)', None, {'a.prophy': 'union Stamp { 1: u32 time; 2: u64 time_t; };\n'}, 'a.prophy', 'reject'),
+    ('union arms time and time_s', None, {'a.prophy': 'union Stamp { 1: u32 time; 2: u64 time_s; };\n'}, 'a.prophy', 'usable'),
+    ('isar: member named like the constant its neighbour\'s size uses (D195)', '--isar',
+     {'a.xml': ISAR % ('<constant name="MAX_ITEMS" value="3"/><struct name="X"><member name="MAX_ITEMS" type="u8"/>'
+                       '<member name="items" type="u16"><dimension size="MAX_ITEMS"/></member></struct>')}, 'a.xml', 'reject'),
+    ('isar: constant named part2 used as a size in a struct of several blocks (D195)', '--isar',
+     {'a.xml': ISAR % ('<constant name="part2" value="3"/><struct name="X"><member name="a" type="u8"><dimension isVariableSize="true"/></member>'
+                       '<member name="g" type="u16"><dimension size="part2"/></member></struct>')}, 'a.xml', 'reject'),
+    ('isar: constant named _discriminator used as a discriminator value (D195)', '--isar',
+     {'a.xml': ISAR % ('<constant name="_discriminator" value="3"/><union name="U"><member name="a" type="u8" discriminatorValue="_discriminator"/>'
+                       '<member name="b" type="u16" discriminatorValue="4"/></union>')}, 'a.xml', 'reject'),
+    ('isar: constant named part2 that no size uses', '--isar',
+     {'a.xml': ISAR % ('<constant name="part2" value="3"/><constant name="LEN" value="part2 + 1"/><struct name="X"><member name="a" type="u8"><dimension isVariableSize="true"/></member>'
+                       '<member name="g" type="u16"><dimension size="LEN"/></member></struct>')}, 'a.xml', 'usable'),
+    ('isar: included file with a double quote in its name (D196)', '--isar',
+     {'a.xml': ISAR % ('<xi:include href=\'b"c.xml\'/><struct name="A"><member name="b" type="B"/></struct>'), 'b"c.xml': ISAR % '<struct name="B"><member name="x" type="u8"/></struct>'},
+     'a.xml', 'reject'),
     ('isar: 0x..E+ inside a name (D188)', '--isar',
      {'a.xml': ISAR % '<constant name="OFFSET_0xE" value="14"/><constant name="NEXT" value="OFFSET_0xE+1"/><struct name="S"><member name="a" type="u8"><dimension size="NEXT"/></member></struct>'},
      'a.xml', 'usable'),
@@ -612,8 +638,10 @@ def run_c12(tier):
                     shutil.rmtree(ed + 'i', ignore_errors=True)
             shutil.rmtree(d, ignore_errors=True)
         # reserved identifiers (known finding D40)
-        for word in chk.scale(RESERVED[:4] + ['has_x'], RESERVED + ['has_x']):
+        for word in chk.scale(RESERVED[:4] + ['has_x', 'parameter_x'], RESERVED + ['has_x', 'parameter_x']):
             text = ('struct %s { u8 a; };\n' % word if word == 'E' else
+                    'enum Axis { x = 0, y = 1 };\nstruct Rsv { Axis a; };\n' if word == 'parameter_x' else   # `case x:` in a function with a parameter x
+
                     'struct Rsv { u8* x; u32 has_x; };\n' if word == 'has_x' else          # collides with the generated flag member
                     'struct Rsv { u8 %s; };\n' % word)
             d = os.path.join(root, 'r' + word)
